@@ -1,13 +1,17 @@
 """CASYNC - the scheduling part of C03: the real executor under a controlled event loop vs the Coq model Exec/Async.v.
 
-Theorems: coq/theories/Properties/C03async.v (termination, order independence of data and nulled positions,
-error-set characterisation, well-formedness, serial mutation roots; proofs in Exec/AsyncProps.v).
+Theorems: coq/theories/Properties/C03async.v (termination and progress, order independence of data and nulled
+positions, error-set characterisation, well-formedness, serial mutation roots incl. background work; proofs in
+Exec/AsyncProps.v).
 Correspondence: for the requests of harness/c03.py (its schema, queries, World and controlled loop) the abstract
 response tree is derived (positions and their order from an all-value run, nullability from the schema types seen
 by the resolvers, outcome and sync/awaitable flag per position from the behaviour table); the real execute() is run
-under a completion order, the extracted model `async` is run with the completion order the loop actually used;
-compared: final data, nulled positions (CollectedErrors), reported error paths (set; order counted), cancelled
-futures, futures left to the background, the sequence of resolver invocations.
+under a completion order (called outside or inside the running loop), the extracted model `async` is run with the
+completion order the loop actually used; compared: final data, nulled positions (CollectedErrors), reported error
+paths (set; order counted), the futures cancelled / completed / still pending when the response is delivered, the
+sequence of resolver invocations of the whole run including background work.  Direct predicates on the
+implementation: no resolver below mutation root field i runs, and no awaitable below it is still unwinding, once
+root field j > i has started.
 Stand-alone: ./check CASYNC; as part of C03: casync.core(ck, tier, model_ok)."""
 from __future__ import annotations
 
@@ -52,6 +56,7 @@ EXTRA_QUERIES = [
 ]
 
 ORPHAN_KEY = "mutation-root-starts-while-background-work-of-earlier-root-pending"
+UNWIND_KEY = "mutation-root-starts-while-awaitable-of-earlier-root-unwinding"
 # True: the overlap is a violation of the serial clause (one stable key); False: it is only counted
 REPORT_ORPHAN_OVERLAP = True
 
@@ -329,9 +334,14 @@ def dec_answer(out, keys, leaves):
     return {"final": final == 1, "data": data if final == 1 else None, "skipped": lists[0], "pending": lists[1], "events": evs}
 
 
-def below(p, roots):
-    """p is at or below one of the positions in roots."""
-    return any(p[:len(r)] == r for r in roots)
+_REPORTED = set()
+
+
+def report_once(ck, key, what, rep):
+    """Violations with a stable key (usable as a `known` entry) are reported once per run, with the first input."""
+    if key not in _REPORTED:
+        _REPORTED.add(key)
+        ck.violation(key, what, rep)
 
 
 # --------------------------------------------------------------------------- one comparison
@@ -442,8 +452,23 @@ def judge(ck, o, out, rep_extra=None):
     for d in diffs[:3]:
         ck.violation(key, "model Exec/Async.v vs execute(): " + d,
                      dict(rep, relation="extracted model = implementation", impl=f, model_events=[list(map(str, e)) for e in evs][:60]))
-    # the serial clause on the implementation, including background work
+    # the serial clause on the implementation, including background work and the unwinding of cancelled awaitables
     if q.startswith("mutation"):
+        root_keys = [c[0] for c in root[4][1]]
+        running = {}
+        for ev, p in obs["log"]:
+            if ev == "begin":
+                running[p] = root_keys.index(p[0])
+            elif ev == "end":
+                running.pop(p, None)
+            elif ev == "call" and len(p) == 1:
+                late = [x for x, ri in running.items() if ri < root_keys.index(p[0])]
+                if late:
+                    report_once(ck, UNWIND_KEY, f"root mutation field {p[0]!r} started while the awaitable of {list(late[0])} below an earlier "
+                                 f"root field had not finished (or finished unwinding after its cancellation)",
+                                 dict(rep, relation="each root mutation field starts only after the previous one and its whole subtree completed",
+                                      impl=[[ev2, list(p2)] for ev2, p2 in obs["log"]][:80]))
+                    break
         roots = list(dict.fromkeys(p[0] for p in r_calls_all if len(p) == 1))
         started = -1
         for p in r_calls_all:
@@ -454,7 +479,7 @@ def judge(ck, o, out, rep_extra=None):
                 ck.count("casync_mutation_background_work_overlaps_next_root")
                 break
             elif ri < started:
-                ck.violation(ORPHAN_KEY, f"resolver {list(p)} below mutation root field {p[0]!r} was invoked after root field "
+                report_once(ck, ORPHAN_KEY, f"resolver {list(p)} below mutation root field {p[0]!r} was invoked after root field "
                              f"{roots[started]!r} had started (work left to the background by settle_in_background)",
                              dict(rep, relation="each root mutation field starts only after the previous one and its whole subtree completed",
                                   impl=[list(x) for x in r_calls_all]))
@@ -533,6 +558,7 @@ def core(ck, tier, model_ok, budget_s=None):
     import warnings
     warnings.filterwarnings("ignore", category=RuntimeWarning)
     sys.unraisablehook = lambda *_a: None
+    _REPORTED.clear()
     for a in ASSUMPTIONS:
         if a not in ck.assumptions:
             ck.assumptions.append(a)
@@ -562,7 +588,7 @@ def core(ck, tier, model_ok, budget_s=None):
             ck.count("skipped_out_of_fragment")
             continue
         base[q] = info[2]
-    ntrials = 30 if quick else 400
+    ntrials = 60 if quick else 400
     nruns = 0
     stop = False
     for trial in range(1, ntrials + 1):
